@@ -421,6 +421,9 @@ def check(modname, argv):
                 model_out[i] = "|".join(mres[mi:mi + k]); mi += k
             else:
                 spec_out[i] = "|".join(sres[si:si + k]); si += k
+    if hasattr(mod, "post"):
+        model_out = [None if o is None else mod.post(d, o) for d, o in zip(descs, model_out)]
+        spec_out = [None if o is None else mod.post(d, o) for d, o in zip(descs, spec_out)]
     viol, infos, harness_errors = [], [], []
     nontrivial = set()
     kinds = {}
